@@ -14,6 +14,7 @@ import (
 	"github.com/zitadel/logging"
 
 	"verif/harness/internal/attrquery"
+	"verif/harness/internal/c09"
 	"verif/harness/internal/c10"
 	"verif/harness/internal/c14"
 	"verif/harness/internal/c16"
@@ -44,6 +45,8 @@ func main() {
 	stdlog.SetOutput(io.Discard)
 	var err error
 	switch prop {
+	case "C09":
+		err = c09.Run(*out, *tier, *seed)
 	case "C10":
 		err = c10.Run(*out, *tier, *seed)
 	case "C01", "C03":
